@@ -197,6 +197,36 @@ func genCreateBatch(w *World) sdk.Msg {
 	if w.chance("?origin", 35) {
 		m.OriginTx = w.originTx("otx", false, false)
 	}
+	// the optional class_id field (since revision 3): the project's class, another class (one the signer
+	// issues for, if any), or an unknown id
+	if w.chance("?classid", 25) && len(w.S.Classes) > 0 {
+		w.Flags["create-batch-with-class-id"] = true
+		switch w.intn("classidmode", 4) {
+		case 0, 1:
+			if prj != nil {
+				if c := w.S.ClassByKey(prj.ClassKey); c != nil {
+					m.ClassId = c.Id
+				}
+			}
+		case 2:
+			var own []string
+			for _, ci := range w.S.ClassIssuers {
+				if string(ci.Issuer) == string(issuer) && (prj == nil || ci.ClassKey != prj.ClassKey) {
+					if c := w.S.ClassByKey(ci.ClassKey); c != nil {
+						own = append(own, c.Id)
+					}
+				}
+			}
+			if len(own) > 0 {
+				m.ClassId = pickOf(w, "classidown", own)
+				w.Flags["create-batch-with-foreign-class-id"] = true
+			} else {
+				m.ClassId = pickOf(w, "classidany", w.S.Classes).Id
+			}
+		default:
+			m.ClassId = pickOf(w, "classidfake", []string{"C999", "ZZ01", "c01", ""})
+		}
+	}
 	return m
 }
 
